@@ -261,7 +261,21 @@ fn run_server_side(ctx: &RunCtx) -> RunOut {
             return mk("C08.shown_and_rejected", format!("stream {id} was handed to the application and also reset with H3_REQUEST_REJECTED"));
         }
         if !was_shown && !rejected && accept_ended {
-            continue; // arrived after the accept loop had legitimately ended
+            // arrived after the accept loop had legitimately ended: nobody will serve it, so the last GOAWAY
+            // on the wire must not promise it. (Only a stream above everything shown is judged: one that was
+            // overtaken by a later-numbered stream is below any identifier the server could still send.)
+            if let Some(x) = final_last {
+                if shown.iter().all(|s| *s < id) {
+                    obs::count("probe.stream_arrives_after_accept_ended");
+                    if r.hist.iter().any(|h| matches!(h, Hist::Shutdown(n, _) if *n >= 1)) {
+                        obs::count("probe.stream_arrives_after_accept_ended_and_shutdown_with_grace");
+                    }
+                }
+                if id < x && shown.iter().all(|s| *s < id) {
+                    return mk("C08.request_below_final_goaway_never_served", format!("accept() reported the end of the connection, the last GOAWAY on the wire is {x}, and stream {id} (below it, above every stream shown) arrived afterwards: the client is told it may still be processed, but the application has been told there is nothing more to accept"));
+                }
+            }
+            continue;
         }
         if !was_shown && !rejected {
             return mk("C08.request_neither_served_nor_rejected", format!("stream {id} arrived but was neither handed to the application nor rejected (final GOAWAY {:?})", final_last));
